@@ -205,6 +205,12 @@ void typed_results()
             });
   // negative lookahead consumes nothing
   check_one("not", !p::literal{'a'} >> p::char_{}, B(B_SEQ, U(U_NOT, L(L_LIT_A)), L(L_CHAR)), [](char c) { return "(u," + ch(c) + ")"; });
+  // the operand of a negative lookahead is parsed with the skipper in effect
+  check_one("not_sequence", !(p::literal{'a'} >> p::literal{'b'}) >> *p::char_{}, B(B_SEQ, U(U_NOT, B(B_SEQ, L(L_LIT_A), L(L_LIT_B))), U(U_REP, L(L_CHAR))),
+            [](auto const &v) { return "(u," + join_chars(v, [](char c) { return ch(c); }) + ")"; });
+  check_one("not_repetition_then", !(p::make_ignore(*p::literal{'a'}) >> p::literal{'b'}) >> *p::char_{},
+            B(B_SEQ, U(U_NOT, B(B_SEQ, U(U_IGNORE, U(U_REP, L(L_LIT_A))), L(L_LIT_B))), U(U_REP, L(L_CHAR))),
+            [](auto const &v) { return "(u," + join_chars(v, [](char c) { return ch(c); }) + ")"; });
   // fatal stops backtracking; fatal under not_ is absorbed
   check_one("fatal_alt", (p::literal{'a'} >> p::make_fatal(p::literal{'b'})) | (p::literal{'a'} >> p::literal{'a'}),
             B(B_ALT, B(B_SEQ, L(L_LIT_A), U(U_FATAL, L(L_LIT_B))), B(B_SEQ, L(L_LIT_A), L(L_LIT_A))), [](fcppt::unit) { return std::string("(u,u)"); });
